@@ -65,6 +65,11 @@ def translate():
         notes.append("markUnavailableInternal: traffic counter comparison / keep-current-state shape is gone")
     if not re.search(r"d\.failCount\[idx\]\+\+\s*if d\.failCount\[idx\] < threshold \{\s*alive = collection\.Alive\.Load\(\)", body):
         notes.append("markUnavailableInternal: probe counter comparison / keep-current-state shape is gone")
+    rat = func_body(cc, r"func \(d \*Dialer\) ReportAvailableTraffic\(typ \*NetworkType\) \{", "ReportAvailableTraffic")
+    if not re.search(r"\{\s*idx := typ\.Index\(\)\s*if d\.trafficFailCount\[idx\]\.Load\(\) != 0 \{\s*d\.trafficFailCount\[idx\]\.Store\(0\)\s*\}\s*"
+                     r"if typ\.L4Proto == consts\.L4ProtoStr_UDP && typ\.EffectiveUdpHealthDomain\(\) == UdpHealthDomainData && !d\.MustGetAlive\(typ\) \{\s*"
+                     r"d\.informDialerGroupUpdate\(d\.markAvailableTraffic\(typ\)\)\s*\}\s*\}$", rat):
+        notes.append("ReportAvailableTraffic: order of the streak reset and the data-UDP revival block changed (no early return may precede the revival check)")
     c["max_consecutive_failures"] = int(_need(re.search(r"maxConsecutiveFailures\s*=\s*(\d+)", sc), "maxConsecutiveFailures").group(1))
     _need(re.search(r"entry\.count\+\+\s*entry\.lastUpdated = now\s*if entry\.count >= maxConsecutiveFailures \{", sc), "recordProxyFailure comparison")
     for name in ("IdxDnsTcp4", "IdxDnsTcp6", "IdxDnsUdp4", "IdxDnsUdp6", "IdxTcp4", "IdxTcp6", "IdxUdp4", "IdxUdp6"):
@@ -318,6 +323,37 @@ def cross_counter_family(full):
                                            {"policy": "min_avg10", "members": [0, 1], "offsets": [0, 0], "oid": 43 + dom}],
                                 "tolerance": 0, "ops": ops,
                                 "family": "cross_counter/%s/%s%s/%s" % (DOMS[dom], kname, "+reload" if with_reload else "", "-".join(order))})
+    return out
+
+
+def traffic_success_family(full):
+    """fixed boundary family for "successful traffic": a type dies through every route - in particular those that leave
+    the traffic streak at 0 (probe streak, transactional streak, reload hand-over with cleared counters; also forced,
+    escalation, probe death + reload, and in the thorough tier the traffic streak itself) - while another node keeps the
+    groups populated, then a successful traffic report arrives: a data-UDP type must come back (edge, counts cleared,
+    membership, slot), any other type must stay dead; then a probe success and one more failure."""
+    out = []
+    for dom in range(6):
+        udp = dom >= 2
+        thr_probe, thr_traffic = (3, 50) if udp else (1, 10)     # generator bias only
+        f = lambda kind, d=dom, err="timeout": {"op": "fail", "n": 0, "dom": d, "kind": kind, "err": err, "alt": False}
+        routes = [("probe", [f("check")] * thr_probe), ("trans", [f("trans")] * thr_probe),
+                  ("forced+reload", [f("forced"), {"op": "reload"}]),
+                  ("probe+reload", [f("check")] * thr_probe + [{"op": "reload"}]),
+                  ("forced", [f("forced")]),
+                  ("escalation", [f("check", 0, "refused"), f("check", 1, "refused")] + [f("check", 3, "refused")] * 3)]
+        if full:
+            routes.append(("traffic", [f("traffic")] * thr_traffic))
+            routes.append(("traffic+traffic_ok_other_node", [f("traffic")] * thr_traffic + [{"op": "traffic_ok", "n": 1, "dom": dom, "alt": False}]))
+        for rname, rops in routes:
+            ops = list(rops) + [{"op": "traffic_ok", "n": 0, "dom": dom, "alt": bool(len(out) % 2)},
+                                {"op": "traffic_ok", "n": 0, "dom": dom, "alt": False},
+                                {"op": "probe_ok", "n": 0, "dom": dom, "alt": False}, f("traffic"),
+                                {"op": "traffic_ok", "n": 0, "dom": dom, "alt": False}]
+            out.append({"dialers": [{"addr": "a1"}, {"addr": "a2"}],
+                        "groups": [{"policy": "min_last", "members": [0, 1], "offsets": [0, 0], "oid": 2 + dom},
+                                   {"policy": "min_avg10", "members": [1, 0], "offsets": [0, 0], "oid": 85 + dom}],
+                        "tolerance": 0, "ops": ops, "family": "traffic_success/%s/%s" % (DOMS[dom], rname)})
     return out
 
 
@@ -641,7 +677,8 @@ def main(argv):
             for n in sorted(os.listdir(cdir)):
                 if n.endswith(".json"):
                     corpus.append(json.load(open(os.path.join(cdir, n))))
-        family = reload_family(args.tier == "thorough") + cross_counter_family(args.tier == "thorough")
+        family = (reload_family(args.tier == "thorough") + cross_counter_family(args.tier == "thorough")
+                  + traffic_success_family(args.tier == "thorough"))
         corpus = corpus + family          # fixed inputs run first, like the corpus
         cases = corpus + [gen_case(rng, big=(args.tier == "thorough" and i % 3 == 0)) for i in range(n_cases)]
         all_err, all_res, sigs, fatal = {}, {}, [], None
@@ -742,7 +779,7 @@ def main(argv):
             out.violation("tie", what, "proof obligation or model correspondence no longer checks; no failing input found", no_failing_input=True)
         nontrivial = len(set(s for s in sigs if int(s[0]) > 0 and int(s[2]) > 0))
         cov.update(evaluations=n_eval, distinct_nontrivial=nontrivial, distinct_signatures=len(set(sigs)),
-                   rule="fixed cross-counter family (death through probe / transactional / traffic streak, forced report or escalation, optionally a reload hand-over, then failures through every counter, ignorable errors, a success) + fixed reload family (2-3 groups x 2-4 nodes in all overlap shapes x all-dead / one-version-dead / one-alive per domain, then reload) + random histories over 1-4 nodes (shared / empty proxy addresses), 0-3 groups (3 latency policies, random, fixed; shared nodes; offsets; tolerance), "
+                   rule="fixed traffic-success family (death through every route incl. those leaving the traffic streak at 0, then successful traffic: data-UDP revives, other types do not) + fixed cross-counter family (death through probe / transactional / traffic streak, forced report or escalation, optionally a reload hand-over, then failures through every counter, ignorable errors, a success) + fixed reload family (2-3 groups x 2-4 nodes in all overlap shapes x all-dead / one-version-dead / one-alive per domain, then reload) + random histories over 1-4 nodes (shared / empty proxy addresses), 0-3 groups (3 latency policies, random, fixed; shared nodes; offsets; tolerance), "
                         "built from runs of probe / transactional / traffic failures of length threshold-2..threshold+2 with interruptions (success, ignorable error, skipped probe, other source), "
                         "forced reports, escalation bursts, suppression scopes and quiesce end, global reset, reloads; both spellings of each network type. "
                         "signature = (threshold deaths, escalations, revivals, suppressed failures, slot clears, reloads) saturated at 3; non-trivial = at least one threshold death and one revival",
